@@ -1224,7 +1224,7 @@ package larking
 // another service's routes).
 //@ func (*path).alive serves C11 C12 pure
 //@   requires p != nil
-//@   ensures [node-with-children-is-alive C11] (maplen(p.methods) != 0 || len(p.variables) != 0 || maplen(p.segments) != 0) ==> result
+//@   ensures [node-with-content-is-alive C11] (maplen(p.methods) != 0 || p.methodAll != nil || len(p.variables) != 0 || maplen(p.segments) != 0) ==> result
 // Unregistering a method removes every binding of it (C11: after a drop no route of the
 // method is left for a later registration to trip over; a method registered again is served
 // by its live backend on every binding): at this node no verb and no "*" binding of the
@@ -1233,12 +1233,20 @@ package larking
 //@   returns (ok)
 //@   requires p != nil
 //@   count subcalls `v.next.delRule(`
-//@   ensures [every-literal-subtree-is-searched C11] at every return forall k :: {rangeseen(1, k)} {maphas(p.segments, k)} maphas(p.segments, k) ==> rangeseen(1, k)
-//@   ensures [every-verb-binding-is-looked-at C11] at every return forall k :: {rangeseen(2, k)} {maphas(p.methods, k)} maphas(p.methods, k) ==> rangeseen(2, k)
+//@   ghost at "vs := make(variables, 0, len(p.variables))" done1 = 1
+//@   ghost at "for _, v := range p.variables {" nv = len(p.variables)
+//@   assert at "p.variables = vs" [every-variable-subtree-is-searched C11] subcalls == nv
+//@   ghost at "p.variables = vs" done2 = 1
+//@   assert at "if m := p.methodAll; m != nil && m.name == name {" [every-verb-binding-is-looked-at C11] forall k :: {rangeseen(2, k)} {maphas(p.methods, k)} maphas(p.methods, k) ==> rangeseen(2, k)
+//@   assert at "if m := p.methodAll; m != nil && m.name == name {" [no-verb-binding-of-the-method-is-left C11] forall k :: {maphas(p.methods, k)} maphas(p.methods, k) ==> mapval(p.methods, k).name != name
+//@   ghost at "if m := p.methodAll; m != nil && m.name == name {" done3 = 1
+//@   ensures [nothing-is-skipped-on-the-way-out C11] at every return done1 == 1 && done2 == 1 && done3 == 1
 //@   ensures [the-star-binding-of-the-method-is-removed C11] at every return p.methodAll != nil ==> p.methodAll.name != name
 //@   witness verifWitnessReconnect
-//@   assert at "delete(p.segments, k)" [prune-only-dead-segments C11] maplen(s.methods) == 0 && len(s.variables) == 0 && maplen(s.segments) == 0
-//@   assert at "p.variables = append(" [prune-only-dead-variables C11] maplen(v.next.methods) == 0 && len(v.next.variables) == 0 && maplen(v.next.segments) == 0
+//@   loop 2 invariant -1 <= rangeindex && rangeindex < nv && subcalls == rangeindex + 1
+//@   loop 3 invariant forall k :: {rangeseen(2, k)} {maphas(p.methods, k)} rangeseen(2, k) && maphas(p.methods, k) ==> mapval(p.methods, k).name != name
+//@   loop 3 invariant forall k :: {rangestart(2, k)} {maphas(p.methods, k)} maphas(p.methods, k) ==> rangestart(2, k)
+//@   assert at "delete(p.segments, k)" [prune-only-dead-segments C11] maplen(s.methods) == 0 && s.methodAll == nil && len(s.variables) == 0 && maplen(s.segments) == 0
 
 // The response Content-Type is set before the first message of a reply is
 // written, whether or not the handler already sent its headers (C04).
